@@ -104,6 +104,29 @@ def spec_hash(module, extra=""):
     return h.hexdigest()[:20]
 
 
+def apalache_ind(run):
+    """The inductive-invariant obligations of spec/SodgInd.tla (tools/apalache_ind.sh); they do not depend on /repo, so the
+    result is cached under the hash of the modules and the script.  Returns the list of obligation rows."""
+    script = os.path.join(ROOT, "tools", "apalache_ind.sh")
+    key = spec_hash("APA_Ind", open(script).read())
+    path = os.path.join(CACHE, f"apalache-{key}.json")
+    if os.path.exists(path):
+        return json.load(open(path)), True
+    p = sh([script, os.path.join(run.dir, "apalache")], timeout=3600, check=False)
+    rows = []
+    for line in p.stdout.splitlines():
+        m = re.match(r"APALACHE (\S+) expected=(\S+) got=(\S+) seconds=(\S+)", line)
+        if m:
+            rows.append({"obligation": m.group(1), "expected": m.group(2), "got": m.group(3), "seconds": m.group(4)})
+    if p.returncode != 0 or len(rows) != 6 or any(r["expected"] != r["got"] for r in rows):
+        raise ToolError("Apalache: the inductive-invariant obligations of SodgInd did not come out as expected\n" + p.stdout[-2000:] + (p.stderr or "")[-1000:])
+    os.makedirs(CACHE, exist_ok=True)
+    tmp = path + f".{os.getpid()}.tmp"
+    json.dump(rows, open(tmp, "w"))
+    os.replace(tmp, path)
+    return rows, False
+
+
 TLC_STATS = re.compile(r"(\d+) states generated, (\d+) distinct states found")
 
 
